@@ -71,6 +71,12 @@ pub struct Scn {
     /// used): a name is a label for events and metrics, not an identity
     #[serde(default)]
     pub decoy_namesake: bool,
+    /// callers whose inner call sends another request back through the same bulkhead and awaits
+    /// it inside its own future (a handler that calls the client it sits behind). Only with a
+    /// finite max_wait: the nested request gives up after that long if it gets no slot, and the
+    /// outer call goes on (without one this would be a deadlock of the caller's own making)
+    #[serde(default)]
+    pub reentrant: Vec<u32>,
 }
 
 thread_local! {
@@ -105,6 +111,7 @@ fn gen_long_wait(rng: &mut Rng, max: u32) -> Scn {
         callers.push(mk(*rng.pick(&[1u64, 5, 40]), Outcome::Ok, 5));
     }
     Scn {
+        reentrant: vec![],
         nested: false,
         decoy_namesake: false,
         inner_capacity: None,
@@ -169,7 +176,9 @@ pub fn gen(rng: &mut Rng) -> Scn {
         });
     }
     let pre = if max_wait.is_some() { *rng.pick(&[0u8, 0, 0, 1, 2, 3, 4]) } else { *rng.pick(&[0u8, 0, 0, 4]) };
+    let reentrant = if !shared_handle && matches!(max_wait, Some(w) if w <= 100) && rng.chance(1, 4) { (0..rng.range(1, 3)).map(|_| rng.below(n as u64) as u32).collect() } else { vec![] };
     Scn {
+        reentrant,
         nested: rng.chance(1, 6),
         decoy_namesake: rng.chance(1, 6),
         inner_capacity: if !shared_handle && rng.chance(1, 6) { Some(rng.range(1, 3) as u32) } else { None },
@@ -198,6 +207,7 @@ pub fn valid(s: &Scn) -> bool {
         && s.knobs.jumps.iter().all(|j| j.0 <= 500 && j.1 <= 200)
         && s.knobs.jumps.len() <= 3
         && s.pre <= 4
+        && (s.reentrant.is_empty() || (!s.shared_handle && matches!(s.max_wait, Some(w) if w <= 100) && s.reentrant.len() <= 4 && s.reentrant.iter().all(|i| (*i as usize) < s.callers.len())))
         && s.inner_capacity.map(|c| c >= 1 && c <= 4 && !s.shared_handle).unwrap_or(true)
         && (s.max_wait.is_some() || s.pre == 0 || s.pre == 4)
         && s.callers.iter().all(|c| c.svc <= 1 && (s.two_services || c.svc == 0))
@@ -317,6 +327,44 @@ pub fn run(s: &Scn, ctx: &mut RunCtx, prefix: &'static str) -> RunOutput {
         }) else {
             return vec![];
         };
+        if !scn.reentrant.is_empty() {
+            // nested requests: id 500+i, same service as the outer caller (carried in `key`)
+            world::with(|w| {
+                for i in &scn.reentrant {
+                    let svc = scn.callers[*i as usize].svc;
+                    w.script.nested.insert((svc, *i), Req { id: 500 + *i, key: svc as u32 });
+                    w.script.by_req.insert((svc, 500 + *i), vec![Behaviour { lat_ms: 5, out: Outcome::Ok, yields: 0 }]);
+                }
+            });
+            let protos: Vec<Svc> = shared.iter().map(|s| s.borrow().clone()).collect();
+            crate::inner::NESTED.with(|nst| {
+                *nst.borrow_mut() = Some(std::rc::Rc::new(move |r: Req| {
+                    let mut s = protos[(r.key as usize).min(1)].clone();
+                    let wk = std::task::Waker::noop();
+                    match s.poll_ready(&mut std::task::Context::from_waker(wk)) {
+                        std::task::Poll::Ready(Ok(())) => {
+                            let f = s.call(Req { id: r.id, key: 0 });
+                            // the nested request queues like any other caller (it is polled for
+                            // the first time in the same poll that creates it)
+                            struct Done(i64);
+                            impl Drop for Done {
+                                fn drop(&mut self) {
+                                    world::note("nested_done", self.0, 0);
+                                }
+                            }
+                            world::note("nested_arrive", r.id as i64, r.key as i64);
+                            let done = Done(r.id as i64);
+                            Some(Box::pin(async move {
+                                let _ = f.await;
+                                drop(done);
+                                drop(s);
+                            }) as crate::inner::NestedFut)
+                        }
+                        _ => None,
+                    }
+                }))
+            });
+        }
         let mut defs = vec![];
         for i in 0..total_tasks {
             let (start_ms, cancel, drop_unpolled, depth, hold, which, handle) = if i < n {
@@ -448,6 +496,7 @@ pub fn run(s: &Scn, ctx: &mut RunCtx, prefix: &'static str) -> RunOutput {
         },
     );
     NAMESAKE.with(|n| *n.borrow_mut() = None);
+    crate::inner::NESTED.with(|n| *n.borrow_mut() = None);
     // ---- history checks
     let log = world::with(|w| std::mem::take(&mut w.log));
     let calls = inner_calls(&log);
@@ -510,6 +559,14 @@ pub fn run(s: &Scn, ctx: &mut RunCtx, prefix: &'static str) -> RunOutput {
                     .iter()
                     .any(|c| c.svc == k && c.req == j as u32 && c.start_seq < fp_seq)
         });
+        // nested requests (sent by the inner service back through the bulkhead) queue as well
+        let nested_queued_before = crate::logq::notes(&log, "nested_arrive").any(|(r, id, svc)| {
+            svc == k as i64
+                && r.seq < fp_seq
+                && crate::logq::notes(&log, "nested_done").find(|(_, a, _)| *a == id).map(|(d, _, _)| d.seq > fp_seq).unwrap_or(true)
+                && !calls.iter().any(|c| c.svc == k && c.req as i64 == id && c.start_seq < fp_seq)
+        });
+        let queued_before = queued_before || nested_queued_before;
         if !drop_unpolled && before < max && !queued_before {
             // "at once" = at the same virtual instant (an implementation may hop through a spawned task)
             let _ = fp_step;
